@@ -430,8 +430,8 @@ def build_machine(case, world, cls=None, model=None, extra_kwargs=None, models=N
     # construction routes (case['build'], see gen_case): bit 1 = enter/exit callbacks registered afterwards with
     # machine.on_enter / machine.on_exit; bit 2 = states added after construction by add_states(...,
     # ignore_invalid_triggers=<not the machine's flag>) - states whose own flag equals it leave it to the call -,
-    # the model by add_model(initial=...); bit 4 = states without final / ignore settings given as plain names,
-    # their callbacks through add_states(name, on_enter=..., on_exit=...)
+    # the model by add_model(initial=...); bit 4 = states given as plain names, their callbacks and settings through the
+    # keyword form add_states(name, on_enter=..., on_exit=..., ignore_invalid_triggers=..., final=...)
     variant = case.get('build', 0) if models is None else 0
     call_ignore = (not m['ignore']) if variant & 2 else None
     states = []
@@ -440,8 +440,8 @@ def build_machine(case, world, cls=None, model=None, extra_kwargs=None, models=N
     for s, d in m['states']:
         sd = dict(name='s%d' % s, ignore_invalid_triggers=d['ignore'], final=d['final'])
         ent, exi = [R('enter', c) for c in d['enter']], [R('exit', c) for c in d['exit']]
-        if (variant & 4) and not d['final'] and d['ignore'] is None and s != case['init']:
-            by_name.append(('s%d' % s, ent, exi))
+        if (variant & 4) and s != case['init']:
+            by_name.append(('s%d' % s, ent, exi, dict(ignore_invalid_triggers=d['ignore'], final=d['final'])))
             continue
         if variant & 1:
             later.append(('s%d' % s, ent, exi))
@@ -469,13 +469,13 @@ def build_machine(case, world, cls=None, model=None, extra_kwargs=None, models=N
         kw['initial'] = None
         machine = cls(**kw)
         machine.add_states(sts, ignore_invalid_triggers=call_ignore)
-        for name, ent, exi in by_name:
-            machine.add_states(name, on_enter=ent, on_exit=exi)
+        for name, ent, exi, kws in by_name:
+            machine.add_states(name, on_enter=ent, on_exit=exi, **kws)
         machine.add_model(model, initial=ini)
     else:
         machine = cls(**kw)
-        for name, ent, exi in by_name:
-            machine.add_states(name, on_enter=ent, on_exit=exi)
+        for name, ent, exi, kws in by_name:
+            machine.add_states(name, on_enter=ent, on_exit=exi, **kws)
     for k_l, (name, ent, exi) in enumerate(later):
         # Machine.__getattr__ provides on_enter_<state>(callback) / on_exit_<state>(callback); the hierarchical classes
         # have on_enter(state, callback) / on_exit(state, callback) as well
